@@ -2,7 +2,7 @@
 from harness import dstprops, hcommon, hprop_run
 
 PROP = "C13"
-EXTRA_PROPS = ("C13b",)     # closed form: Check Limit Reached exactly at the L-th expiry, any L
+EXTRA_PROPS = ("C13b", "C13c")     # closed form: Check Limit Reached exactly at the L-th expiry, any L; history level: late data between expiries
 
 
 def proj(kind, d):
